@@ -196,8 +196,8 @@ Print Assumptions C14_judge_sound_all.
 (* ---- the business rules written out in Servers/C14Judge.v (onoff, press, air temperature x2, count,
    speaker volume without delta, mode values without relative, fan speed without relative) meet the
    [rule] interface the theorems above quantify over: they answer with a value or a gRPC status ---- *)
-Theorem C14_hand_rules_are_rules : forall ty h base q c,
-  hand_rule ty h base q = Some (inr c) -> is_status c = true.
+Theorem C14_hand_rules_are_rules : forall ty h base q obs c,
+  hand_rule ty h base q obs = Some (inr c) -> is_status c = true.
 Proof. exact hand_rule_status. Qed.
 Print Assumptions C14_hand_rules_are_rules.
 
